@@ -179,3 +179,89 @@ def model_deltas_equal_masters(naxes, size, chunk=0, nchunks=1):
                 want = want * spec_tent(loc[ax], t)
             conds.append(eq(sc, want))
         ob('support-scalars-match-spec', conj(conds))
+
+
+# ---------------------------------------------------------------------------- IUP
+import fontTools.varLib.iup as IUP
+shim_all(IUP)
+
+CONTOURS = {
+    'tri': [(0, 0), (100, 0), (50, 80)],
+    'edge-mid': [(0, 0), (50, 0), (100, 0), (100, 100)],
+    'collinear': [(0, 0), (10, 0), (20, 0)],
+    'dup': [(0, 0), (0, 0), (10, 10)],
+    'diamond': [(50, 0), (100, 50), (50, 100), (0, 50)],
+    'two': [(0, 0), (30, 40)],
+    'one': [(7, 9)],
+    'penta': [(0, 0), (40, 0), (80, 0), (80, 60), (0, 60)],
+}
+PHANTOM_C = [(0, 0), (600, 0), (0, 800), (0, -200)]
+
+
+def within(d, r, tol):
+    """Euclidean |d - r| <= tol through squares"""
+    dx, dy = d[0] - r[0], d[1] - r[1]
+    return le(dx * dx + dy * dy, tol * tol)
+
+
+F_IUP = ['varLib/iup.py:iup_delta_optimize', 'varLib/iup.py:iup_contour_optimize', 'varLib/iup.py:_iup_contour_bound_forced_set',
+         'varLib/iup.py:_iup_contour_optimize_dp', 'varLib/iup.py:can_iup_in_between', 'varLib/iup.py:iup_segment',
+         'varLib/iup.py:iup_delta', 'varLib/iup.py:iup_contour']
+FIXED_D = [(3, -2), (7, 5), (-4, 6), (10, 1), (-6, -8)]
+
+
+def _iup_check(coords, deltas, tolerance):
+    n = len(coords)
+    allc = coords + PHANTOM_C
+    alld = deltas + [(0, 0), (12, 0), (0, 0), (0, 0)]
+    ends = [n - 1]
+    opt = IUP.iup_delta_optimize(list(alld), list(allc), list(ends), tolerance)
+    ob('length', len(opt) == len(alld))
+    rec = list(IUP.iup_delta([None if d is None else tuple(d) for d in opt], list(allc), list(ends)))
+    ob('reconstructed-within-tolerance', conj([within(d, r, tolerance) for d, r in zip(alld, rec)]))
+    ob('kept-deltas-unchanged', conj([True if o is None else conj([eq(o[0], d[0]), eq(o[1], d[1])]) for o, d in zip(opt, alld)]))
+    observe('explicit-points', sum(1 for o in opt if o is not None))
+
+
+@kernel('C09', funcs=F_IUP,
+        bounds='exact reconstruction (tolerance 0): one contour from a fixed set of concrete coordinate shapes (1-4 points: triangle, point on '
+               'an edge, collinear, duplicate points, diamond) + 4 phantom points; ALL point deltas symbolic reals in [-50, 50]^2',
+        outside=['symbolic coordinates (bilinear in coordinate x delta)', 'several contours', 'more than 5 points'],
+        shims=['complex -> SComplex, abs(complex) compared through squares'],
+        quick=[dict(shape=s) for s in ('one', 'two', 'tri', 'collinear', 'dup')],
+        thorough=[dict(shape=s) for s in ('one', 'two', 'tri', 'collinear', 'dup', 'edge-mid', 'diamond')],
+        max_paths=400000, timeout_ms=60000)
+def iup_optimize_exact(shape):
+    coords = list(CONTOURS[shape])
+    deltas = [(V.real('dx%d' % i, -50, 50), V.real('dy%d' % i, -50, 50)) for i in range(len(coords))]
+    _iup_check(coords, deltas, 0)
+
+
+def _free_params(shapes, tols, nfree):
+    out = []
+    for s in shapes:
+        n = len(CONTOURS[s])
+        for free in itertools.combinations(range(n), nfree):
+            for t in tols:
+                out.append(dict(shape=s, free=list(free), tol=t))
+    return out
+
+
+@kernel('C09', funcs=F_IUP,
+        bounds='positive tolerance (Euclidean, compared through squares): same shapes; the deltas of `free` points (1 point in quick, 1-2 in '
+               'thorough) are symbolic reals in [-50, 50]^2, the other points carry fixed deltas; tolerance in {1, 5/2}',
+        outside=['all deltas symbolic with a positive tolerance (z3 nlsat answers unknown on some branches: measured)'],
+        shims=['complex -> SComplex, abs(complex) compared through squares'],
+        quick=_free_params(('two', 'tri', 'edge-mid', 'collinear', 'diamond'), (1,), 1),
+        thorough=_free_params(('two', 'tri', 'edge-mid', 'collinear', 'dup', 'diamond', 'penta'), (1, Fr(5, 2)), 1)
+        + _free_params(('tri', 'edge-mid', 'diamond'), (1,), 2),
+        max_paths=400000, timeout_ms=60000)
+def iup_optimize_tolerance(shape, free, tol):
+    coords = list(CONTOURS[shape])
+    deltas = []
+    for i in range(len(coords)):
+        if i in free:
+            deltas.append((V.real('dx%d' % i, -50, 50), V.real('dy%d' % i, -50, 50)))
+        else:
+            deltas.append(FIXED_D[i])
+    _iup_check(coords, deltas, Fr(tol) if not isinstance(tol, int) else tol)
